@@ -514,7 +514,8 @@ theorem normalize_host (r : Req) (h : r.authority ≠ []) : (normalize r).host =
     | cons _ _ => rfl
   simp [this]
 
-theorem normalize_body (r : Req) : (normalize r).body = r.body := rfl
+/-- the body arrives unchanged (a request without a body, `Body == nil`, delivers the empty body). -/
+theorem normalize_body (r : Req) : (normalize r).body = if r.hasBody then r.body else [] := rfl
 
 /-! ## Non-vacuity: the hypothesis sets are satisfiable, and where they cannot be dropped -/
 
